@@ -1,23 +1,121 @@
 from pyvc.contracts import contract
+from .transformer import vt_types
 
 FL = "pybads.function_logger.function_logger.FunctionLogger"
 
 LOG_FIELDS = ["self.func_count", "self.X", "self.X_orig", "self.Y", "self.Y_orig", "self.S", "self.X_flag", "self.n_evals",
               "self.fun_eval_time", "self.total_fun_eval_time", "self.Xn", "self.X_max_idx", "self.Y_max"]
+REC_FIELDS = [f for f in LOG_FIELDS if f != "self.func_count"]
 
 
-@contract(FL + ".__call__", serves=["C03", "C10", "C12", "C01"])
+def log_types(c, root="self"):
+    c.ints(root + ".func_count", root + ".Xn", root + ".X_max_idx", root + ".D", root + ".cache_count")
+    c.bools(root + ".noise_flag", root + ".he_noise_flag", root + ".transform_variables")
+    c.arr(root + ".X", 2, [None, root + ".D"])
+    c.arr(root + ".X_orig", 2, [None, root + ".D"])
+    for f in ("Y", "Y_orig", "S", "n_evals", "fun_eval_time"):
+        c.arr("%s.%s" % (root, f), 2, [None, 1])
+    c.arr(root + ".X_flag", 1, [None], "bool")
+    c.reals(root + ".total_fun_eval_time")
+
+
+def wf_at(root):
+    return WF.replace("self.", root + ".")
+
+
+ROWS_EQ = ("rows(self.X_orig) == rows(self.X) and rows(self.Y) == rows(self.X) and rows(self.Y_orig) == rows(self.X) and rows(self.X_flag) == rows(self.X) "
+           "and rows(self.n_evals) == rows(self.X) and rows(self.fun_eval_time) == rows(self.X) and implies(truthy(self.noise_flag), rows(self.S) == rows(self.X))")
+WF = (ROWS_EQ + " and self.Xn >= -1 and self.Xn < rows(self.X) and self.X_max_idx == self.Xn and self.D >= 1 "
+      "and forall(rows(self.X), lambda i: self.X_flag[i] == (i <= self.Xn)) and count_true(self.X_flag) == self.Xn + 1")
+
+
+@contract(FL + ".__call__", serves=["C03", "C10", "C12", "C01", "C02"])
 def _(c):
-    c.ints("self.func_count", "self.Xn", "self.X_max_idx", "self.D")
+    log_types(c)
     c.ints("ghost.n_calls")
-    c.arr("self.X_flag", 1, [None], "bool")
+    c.bools("ghost.cons_none", "ghost.target_raised")
+    c.arr("x", 1, ["self.D"])
+    c.bools("record_duplicate_data")
+    vt_types(c, "self.variable_transformer")
+    c.req("wf", WF)
+    c.req("transformed", "truthy(self.transform_variables)")
+    c.req("vt_dim", "self.variable_transformer.D == self.D")
+    c.req("inv_vt_order", "forall(self.D, lambda j: self.variable_transformer.orig_lb[0][j] <= self.variable_transformer.orig_ub[0][j])")
+    # C02: the caller must hand over a point whose original-space image the user's constraint accepts
+    c.req("feasible_point", "feasx(invt(pt(x)))", props=["C02"])
     c.mod(*LOG_FIELDS)
-    c.mod("ghost.n_calls")
+    c.mod("ghost.n_calls", "ghost.target_raised")
     c.result = {"tuple": [{"sort": "real"}, {"sort": "real", "maybe_none": True}, {"sort": "int", "maybe_none": True}]}
-    # honest counting: exactly one more successful call is counted
+    c.check_raises = True
+    # ---- call-site obligations on the single invocation of the user target ---------------------------------------
+    c.callsite(".fun", {
+        "target_arg_in_hard_box": "forall(self.D, lambda j: self.variable_transformer.orig_lb[0][j] <= arg[j] and arg[j] <= self.variable_transformer.orig_ub[0][j])",
+        "target_arg_feasible": "feasx(pt(arg))",
+        "target_arg_is_image_of_x": "pteq(pt(arg), invt(pt(x)))",
+    }, top=["target_arg_in_hard_box", "target_arg_feasible"], props=["C01", "C02"])
+    # ---- normal exit ----------------------------------------------------------------------------------------------
     c.ens("count", "self.func_count == old(self.func_count) + 1", top=True, props=["C03", "C10"])
+    c.ens("one_target_call", "ghost.n_calls == old(ghost.n_calls) + 1", top=True, props=["C03"])
+    c.ens("target_did_not_raise", "not truthy(ghost.target_raised)", top=True, props=["C10"])
     c.ens("xn_monotone", "self.Xn >= old(self.Xn) and self.Xn <= old(self.Xn) + 1")
     c.ens("norecord_keeps_xn", "implies(not truthy(record_duplicate_data), self.Xn == old(self.Xn))")
-    c.ens("one_target_call", "ghost.n_calls == old(ghost.n_calls) + 1", top=True, props=["C03"])
     c.ens("points_kept", "count_true(self.X_flag) >= old(count_true(self.X_flag))")
-    c.may_raise("Exception")
+    c.ens("wf", WF)
+    # ---- exceptional exits (C10): the target's own exception, or ValueError for an invalid value -----------------------
+    XENS = {"not_counted": "self.func_count == old(self.func_count)", "calls": "ghost.n_calls >= old(ghost.n_calls) and ghost.n_calls <= old(ghost.n_calls) + 1",
+            "xn": "self.Xn == old(self.Xn) and count_true(self.X_flag) == old(count_true(self.X_flag))"}
+    c.may_raise("TargetError", ensures=dict(XENS, flag="truthy(ghost.target_raised)"))
+    c.may_raise("ValueError", ensures=XENS)
+    c.may_raise("AssertionError", ensures=XENS)
+    c.req("no_pending_failure", "not truthy(ghost.target_raised)")
+    c.exc_ens("failed_call_not_counted", "self.func_count == old(self.func_count)", top=True, props=["C10"])
+    c.exc_ens("nothing_logged", "self.Xn == old(self.Xn) and same(self.Y, old(self.Y)) and same(self.X, old(self.X)) and same(self.X_flag, old(self.X_flag))",
+              top=True, props=["C10"])
+    c.exc_ens("at_most_one_target_call", "ghost.n_calls <= old(ghost.n_calls) + 1 and ghost.n_calls >= old(ghost.n_calls)", top=True, props=["C10"])
+    c.exc_ens("points_kept", "count_true(self.X_flag) == old(count_true(self.X_flag))")
+
+
+@contract(FL + "._record", serves=["C12"])
+def _(c):
+    log_types(c)
+    c.arr("x", 1, ["self.D"])
+    c.arr("x_orig", 1, ["self.D"])
+    c.reals("fval_orig", "fun_eval_time")
+    c.typ("fsd", sort="real")   # may be None
+    c.bools("record_duplicate_data")
+    c.req("wf", WF)
+    c.mod(*REC_FIELDS)
+    c.result = {"tuple": [{"sort": "real"}, {"sort": "int", "maybe_none": True}]}
+    c.ens("wf", WF)
+    c.ens("xn_monotone", "self.Xn >= old(self.Xn) and self.Xn <= old(self.Xn) + 1")
+    c.ens("norecord_keeps_log", "implies(not truthy(record_duplicate_data), self.Xn == old(self.Xn) and same(self.X, old(self.X)) and "
+          "same(self.X_orig, old(self.X_orig)) and same(self.Y, old(self.Y)) and same(self.Y_orig, old(self.Y_orig)) and same(self.X_flag, old(self.X_flag)) "
+          "and result[0] == fval_orig)", top=True, props=["C12"])
+    c.ens("points_kept", "count_true(self.X_flag) >= old(count_true(self.X_flag))")
+    c.ens("new_point_recorded", "implies(self.Xn == old(self.Xn) + 1, "
+          "forall(self.D, lambda j: self.X[self.Xn][j] == x[j] and self.X_orig[self.Xn][j] == x_orig[j]) and self.Y[self.Xn][0] == fval_orig "
+          "and self.Y_orig[self.Xn][0] == fval_orig and result[0] == fval_orig and result[1] == self.Xn and self.n_evals[self.Xn][0] >= 1)",
+          top=True, props=["C12"])
+    c.ens("other_records_untouched_by_new_point", "implies(self.Xn == old(self.Xn) + 1, "
+          "forall(old(self.Xn) + 1, self.D, lambda i, j: self.X[i][j] == old(self.X)[i][j] and self.X_orig[i][j] == old(self.X_orig)[i][j]) and "
+          "forall(old(self.Xn) + 1, lambda i: self.Y[i][0] == old(self.Y)[i][0] and self.Y_orig[i][0] == old(self.Y_orig)[i][0] "
+          "and self.n_evals[i][0] == old(self.n_evals)[i][0]))", top=True, props=["C12"])
+
+
+@contract(FL + "._expand_arrays", serves=["C12"])
+def _(c):
+    log_types(c)
+    c.typ("resize_amount", sort="int")
+    c.req("xn", "self.Xn >= 0")
+    c.req("rows_eq", ROWS_EQ)
+    c.req("amount", "isnone(resize_amount) or resize_amount >= 1")
+    c.mod("self.X", "self.X_orig", "self.Y", "self.Y_orig", "self.S", "self.X_flag", "self.fun_eval_time", "self.n_evals")
+    c.ens("grows", "rows(self.X) >= rows(old(self.X)) + 1 and rows(self.X_orig) == rows(self.X) and rows(self.Y) == rows(self.X) and "
+          "rows(self.Y_orig) == rows(self.X) and rows(self.X_flag) == rows(self.X) and rows(self.n_evals) == rows(self.X) and rows(self.fun_eval_time) == rows(self.X)"
+          " and implies(truthy(self.noise_flag), rows(self.S) == rows(self.X))",
+          top=True, props=["C12"])
+    c.ens("prefix_preserved", "forall(rows(old(self.X)), self.D, lambda i, j: self.X[i][j] == old(self.X)[i][j] and self.X_orig[i][j] == old(self.X_orig)[i][j]) and "
+          "forall(rows(old(self.X)), lambda i: self.Y[i][0] == old(self.Y)[i][0] and self.Y_orig[i][0] == old(self.Y_orig)[i][0] and "
+          "self.n_evals[i][0] == old(self.n_evals)[i][0] and self.X_flag[i] == old(self.X_flag)[i])", top=True, props=["C12"])
+    c.ens("new_rows_unflagged", "forall(rows(self.X), lambda i: implies(i >= rows(old(self.X)), not self.X_flag[i] and self.n_evals[i][0] == 0))", props=["C12"])
+    c.ens("count_kept", "count_true(self.X_flag) == old(count_true(self.X_flag))")
